@@ -96,6 +96,8 @@ pub struct World {
     pub resolve_log: Vec<(u32, bool)>,
     pub used_retaining_exemption: u64,
     pub spurious_polls: u64,
+    /// (request, nonce) of every value a leaf future of the reference handed to its task, in order
+    pub delivered: Vec<(Path, u32)>,
 }
 
 /// disposes of the reference runtime when a case ends, on every exit path
@@ -210,6 +212,8 @@ impl Future for RefReq {
             w.push_effect(op, None);
         }
         if let Some(v) = w.cells[id].queue.pop_front() {
+            let p = w.cells[id].op.path.clone();
+            w.delivered.push((p, v.nonce));
             return Poll::Ready(v);
         }
         let ver = w.cells[id].version;
@@ -241,6 +245,8 @@ impl Stream for RefSub {
             w.push_effect(op, None);
         }
         if let Some(v) = w.cells[id].queue.pop_front() {
+            let p = w.cells[id].op.path.clone();
+            w.delivered.push((p, v.nonce));
             return Poll::Ready(Some(v));
         }
         if w.cells[id].dropped {
@@ -911,6 +917,10 @@ impl RefRt {
     pub fn take_outputs(&self) -> (Vec<Op>, Vec<Event>) {
         let mut w = self.w.lock().unwrap();
         (std::mem::take(&mut w.effects), std::mem::take(&mut w.events))
+    }
+    /// values the reference's leaves handed to their tasks since the last call of this function
+    pub fn take_delivered(&self) -> Vec<(Path, u32)> {
+        std::mem::take(&mut self.w.lock().unwrap().delivered)
     }
     pub fn root_done(&self) -> bool {
         let w = self.w.lock().unwrap();
